@@ -70,6 +70,10 @@ pub struct TlsCase {
     /// server name offered and the name the certificate is checked against stay the URI host.
     #[serde(default)]
     pub host_hdr: u8,
+    /// the same transport value is used for another https host (table index) first and that stream
+    /// dropped: the judged connect is its second use. Nothing of the first call may stick.
+    #[serde(default)]
+    pub prior: Option<u8>,
 }
 
 // ------------------------------------------------------------------------------------------------
@@ -443,6 +447,13 @@ impl Engine for TlsEngine {
         let client_tls = c.client_tls;
         let alpn = c.alpn;
         let reconfig = c.reconfig;
+        let prior_parts = c.prior.filter(|_| secure && c.client_tls).map(|p| {
+            rep.class("second-use-of-the-transport-value");
+            http::Request::get(format!("https://{}/prior", HOSTS[p as usize % HOSTS.len()].0).parse::<http::Uri>().unwrap()).body(()).unwrap().into_parts().0
+        });
+        let sni_skip = Arc::new(std::sync::atomic::AtomicUsize::new(0));
+        let sni_skip2 = sni_skip.clone();
+        let peer_for_skip = peer.clone();
         let res = std::panic::catch_unwind(std::panic::AssertUnwindSafe(|| {
             rt.block_on(async move {
                 let t = if client_tls {
@@ -455,6 +466,16 @@ impl Engine for TlsEngine {
                     transport.without_tls()
                 };
                 let fut = async move {
+                    let mut t = t;
+                    if let Some(pp) = prior_parts {
+                        use tower::Service;
+                        if let Ok(svc) = std::future::poll_fn(|cx| t.poll_ready(cx)).await.map(|_| &mut t) {
+                            let first = tokio::time::timeout(Duration::from_secs(5), svc.call(pp)).await;
+                            drop(first);
+                        }
+                        let n = peer_for_skip.lock().unwrap().sni.lock().unwrap().len();
+                        sni_skip2.store(n, std::sync::atomic::Ordering::SeqCst);
+                    }
                     match t.oneshot(parts).await {
                         Err(e) => Err(format!("{e}")),
                         Ok(mut stream) => {
@@ -485,7 +506,7 @@ impl Engine for TlsEngine {
         let Ok(result) = res else { return rep };
         let wire = wire.lock().unwrap().clone();
         let peer = peer.lock().unwrap();
-        let sni = peer.sni.lock().unwrap().clone();
+        let sni: Vec<Option<String>> = peer.sni.lock().unwrap().iter().skip(sni_skip.load(std::sync::atomic::Ordering::SeqCst)).cloned().collect();
         let desc = format!(
             "{uri} (client TLS {}, ALPN bits {:#x}) against peer kind {}: result {:?}; {} bytes on the wire starting {:02x?}; peer handshake ok={}, SNI seen {:?}",
             c.client_tls,
@@ -597,6 +618,7 @@ pub fn strategy() -> impl proptest::strategy::Strategy<Value = TlsCase> {
         prop_oneof![5 => Just(true), 1 => Just(false)],
         prop_oneof![2 => Just(false), 1 => Just(true)],
         prop_oneof![3 => Just(0u8), 2 => Just(1u8), 1 => Just(2u8), 1 => Just(3u8)],
+        prop_oneof![3 => Just(None), 1 => (0u8..16).prop_map(Some)],
     )
-        .prop_map(|(scheme, (host, ghost), port, peer, arg, alpn, client_tls, reconfig, host_hdr)| TlsCase { scheme, host, ghost, port, peer, arg, alpn, client_tls, reconfig, host_hdr })
+        .prop_map(|(scheme, (host, ghost), port, peer, arg, alpn, client_tls, reconfig, host_hdr, prior)| TlsCase { scheme, host, ghost, port, peer, arg, alpn, client_tls, reconfig, host_hdr, prior })
 }
